@@ -45,8 +45,15 @@ Definition atom_eqb (a b : atom) : bool :=
   | ANone, ANone => true
   | AStr s, AStr t => String.eqb s t
   | AObj o, AObj p => Nat.eqb o p
+  | ATup l, ATup m => zs_eqb l m
   | _, _ => false
   end.
+Lemma zs_eqb_eq l : forall m, zs_eqb l m = true <-> l = m.
+Proof.
+  induction l as [|x l IH]; intros [|y m]; cbn [zs_eqb]; split; intros H; try discriminate; try reflexivity.
+  - apply andb_true_iff in H as [H1 H2]. apply Z.eqb_eq in H1. apply IH in H2. now subst.
+  - injection H as -> ->. rewrite Z.eqb_refl. now apply IH.
+Qed.
 Lemma atom_eqb_eq a b : atom_eqb a b = true <-> a = b.
 Proof.
   destruct a, b; cbn; split; intros H; try discriminate; try reflexivity; try congruence.
@@ -58,6 +65,8 @@ Proof.
   - injection H as ->. apply String.eqb_refl.
   - apply Nat.eqb_eq in H. now subst.
   - injection H as ->. apply Nat.eqb_refl.
+  - apply zs_eqb_eq in H. now subst.
+  - injection H as ->. now apply zs_eqb_eq.
 Qed.
 Fixpoint atoms_eqb (l m : list atom) : bool :=
   match l, m with
